@@ -40,4 +40,18 @@ for o in C11.OBLIGATIONS:
 for o in C05.OBLIGATIONS:
     if o["id"].startswith("C05.gcm.stream.t12"):
         d = copy.deepcopy(o); d["id"] = o["id"].replace("C05.", "C06."); OBLIGATIONS.append(d)
+PARSERS = [(0, "x509_signature_algor_from_der", ["x509_alg.c", "asn1.c"]), (1, "x509_public_key_algor_from_der", ["x509_alg.c", "asn1.c", "ec.c"]),
+           (2, "x509_encryption_algor_from_der", ["x509_alg.c", "asn1.c"]), (3, "x509_digest_algor_from_der", ["x509_alg.c", "asn1.c"]),
+           (4, "x509_time_from_der", ["x509_cer.c", "asn1.c"]), (5, "x509_validity_from_der", ["x509_cer.c", "asn1.c"]),
+           (6, "x509_explicit_exts_from_der", ["x509_cer.c", "asn1.c"]), (7, "x509_cert_from_der+get_subject+get_issuer_and_serial", ["x509_cer.c", "asn1.c", "x509_alg.c", "ec.c", "sm2_key.c"]),
+           (8, "x509_crl_from_der", ["x509_crl.c", "x509_cer.c", "asn1.c", "x509_alg.c", "ec.c", "sm2_key.c", "x509_ext.c"]), (9, "x509_req_from_der", ["x509_req.c", "x509_cer.c", "asn1.c", "x509_alg.c", "ec.c", "sm2_key.c"]),
+           (10, "cms_content_info_from_der", ["cms.c", "asn1.c"]), (11, "pkcs8_enced_private_key_info_from_der", ["pkcs8.c", "asn1.c", "x509_alg.c"]),
+           (12, "sm2_public_key_info_from_der", ["sm2_key.c", "asn1.c", "x509_alg.c", "ec.c"])]
+for w, nm, units in PARSERS:
+    for ln in (10, 14):
+        OBLIGATIONS.append({"id": "C06.parse.%s.len%d" % (nm.split("+")[0], ln), "harness": "harness/C06/parsers.c", "entry": "h_parse", "units": units,
+                            "defs": ["-DWHICH=%d" % w, "-DLEN=%d" % ln], "unwind": 40, "timeout": 900, "object_bits": 12, "tier": "quick" if (ln == 10 and w != 7) else "thorough",
+                            "allow_nobody": ["time", "sm2_z256_point_mul_generator", "sm2_z256_point_to_uncompressed_octets", "sm2_z256_point_equ", "sm2_z256_rand_range"],
+                            "title": nm + " on arbitrary bytes: no access outside the exact-size input, cursor and returned slices stay inside",
+                            "bounds": "every input of %d bytes" % ln, "stubs": ["sm2_z256_point_from_octets: touches first/last byte, arbitrary verdict"]})
 NOTE = "C06: memory safety on untrusted input (CBMC's built-in bounds/pointer/memcpy-region checks are the oracle)."
